@@ -113,8 +113,23 @@ func TestVerifLB(t *testing.T) {
 		nsel := r.pick(1, 1, 2, 3, size, 2*size+1)
 		emit("%s %d %d", vhex([]byte(ip)), robin0, nsel)
 		var avail []int
+		// availability as the property defines it, computed from the peer counters and the configured limits (not by the code
+		// under test): every peer is marked up, remembers fewer than max_fails failures (when passive checks set it), and has
+		// fewer than max_connections open connections (when a limit is set)
 		for i, u := range pool {
-			if u.available() {
+			ok := true
+			for _, p := range u.peers {
+				if p.unhealthy != 0 {
+					ok = false
+				}
+				if u.healthCheckPolicy != nil && u.healthCheckPolicy.MaxFails > 0 && int(p.fails) >= u.healthCheckPolicy.MaxFails {
+					ok = false
+				}
+				if u.MaxConnections > 0 && int(p.numConns) >= u.MaxConnections {
+					ok = false
+				}
+			}
+			if ok {
 				avail = append(avail, i)
 			}
 		}
